@@ -132,13 +132,81 @@ pub fn main(tier: Tier, replay: Option<Value>) -> i32 {
             }
         }
     }
+    // the block encoder's decision automaton through the tool: every generator of C02's automaton alone and every
+    // ordered pair of them as one file (so that every cross-block decision - table reuse, raw fallback after a
+    // Huffman block, ... - is taken inside the process a user runs), compress at level 1 (alone: also without a
+    // level) and decompress; in parallel, each case in its own directory
+    {
+        let gens = crate::c02::decision_gens(tier);
+        let mut files: Vec<(Vec<usize>, bool)> = vec![];
+        for a in 0..gens.len() {
+            files.push((vec![a], false));
+            files.push((vec![a], true));
+            for b in 0..gens.len() {
+                files.push((vec![a, b], true));
+                if tier == Tier::Thorough {
+                    files.push((vec![a, b], false));
+                }
+            }
+        }
+        let accs = crate::meter::par_fold(files.len(), crate::meter::threads(), crate::c12::Acc::default, |a, i| {
+            let (seq, with_level) = &files[i];
+            a.evals += 1;
+            let mut data = vec![];
+            for &g in seq {
+                data.extend_from_slice(&gens[g].1);
+            }
+            data.extend_from_slice(b"short last block");
+            let names: Vec<&str> = seq.iter().map(|&g| gens[g].0.as_str()).collect();
+            let d = root.join(format!("auto-{i}"));
+            std::fs::create_dir_all(&d).unwrap();
+            std::fs::write(d.join("input.dat"), &data).unwrap();
+            let mut args = vec!["compress", "input.dat", "out.zst"];
+            if *with_level {
+                args.extend_from_slice(&["--level", "1"]);
+            }
+            let rp = json!({"blocks": names, "tail": "short last block", "args": args});
+            let case = format!("compress a file made of the blocks {names:?} + a short last block{}", if *with_level { " at level 1" } else { " without a level" });
+            let r = run_cli(&cli, &d, &args);
+            let z = std::fs::read(d.join("out.zst")).ok();
+            if r.code != Some(0) || z.is_none() {
+                a.bad(format!("automaton:compress_failed{}", if r.panicked { ":panic" } else { "" }), format!("{case}: exit status {:?}{}, output file: {:?} bytes; stderr: {}", r.code, if r.panicked { " (panic)" } else { "" }, z.map(|z| z.len()), crate::ev::truncate(r.stderr.trim(), 200)), rp);
+            } else {
+                let z = z.unwrap();
+                match refz::decode(&z) {
+                    Ok(p) if p == data => {
+                        let r2 = run_cli(&cli, &d, &["decompress", "out.zst", "restored.dat"]);
+                        let got = std::fs::read(d.join("restored.dat")).ok();
+                        if r2.code != Some(0) || got.as_deref() != Some(&data[..]) {
+                            a.bad("automaton:decompress".into(), format!("{case}, then decompress: exit status {:?}, restored file {:?} bytes, original {}; stderr: {}", r2.code, got.map(|g| g.len()), data.len(), crate::ev::truncate(r2.stderr.trim(), 200)), rp);
+                        } else {
+                            a.nontrivial += 1;
+                        }
+                    }
+                    other => a.bad("automaton:reference_rejects".into(), format!("{case}: libzstd does not restore the file from the {}-byte output: {:?}", z.len(), other.map(|v| v.len())), rp),
+                }
+            }
+            let _ = std::fs::remove_dir_all(&d);
+        });
+        for a in &accs {
+            evals += a.evals;
+            ok_roundtrips += 2 * a.nontrivial;
+        }
+        run.set("automaton_files", files.len() as u64);
+        run.set("automaton_generators", gens.len() as u64);
+        for a in accs {
+            for v in a.viol {
+                run.violation(v);
+            }
+        }
+    }
     let _ = std::fs::remove_dir_all(&root);
     run.set("evaluations", evals);
     run.set("distinct_nontrivial", ok_roundtrips / 2 + refused);
     run.set("successful_roundtrips", ok_roundtrips);
     run.set("operations_refused_cleanly", refused);
     run.set("exhaustive", true);
-    run.set("rule", "the built ruzstd-cli binary in fresh directories: level option {absent, 0, 1, 2, 3, 4, 5, 255, 256, 'x'} (long and short flag) x output path {explicit, defaulted} x 9/12 file contents (empty, 1 byte, text, one block -1/0/+1, incompressible 300 KB, RLE, binary with NULs); every produced file is decoded by libzstd and by the tool's decompress command with explicit and with defaulted target (run from another directory). Implemented levels and no level: exit 0 and identical restored file. Otherwise: non-zero exit status and no panic that leaves an output file behind. non-trivial = completed round trips + cleanly refused operations");
+    run.set("rule", "the built ruzstd-cli binary in fresh directories: level option {absent, 0, 1, 2, 3, 4, 5, 255, 256, 'x'} (long and short flag) x output path {explicit, defaulted} x 9/12 file contents (empty, 1 byte, text, one block -1/0/+1, incompressible 300 KB, RLE, binary with NULs); every produced file is decoded by libzstd and by the tool's decompress command with explicit and with defaulted target (run from another directory). Then every block generator of C02's decision automaton alone (with and without a level) and every ordered pair of them (level 1; thorough: also without) as one file through compress, libzstd and decompress. Implemented levels and no level: exit 0 and identical restored file. Otherwise: non-zero exit status and no panic that leaves an output file behind. non-trivial = completed round trips + cleanly refused operations");
     run.sample(json!({"args": ["compress", "input.dat"], "then": ["decompress", "<dir>/input.dat.zst"], "cwd_of_decompress": "another directory"}));
     run.finish()
 }
